@@ -341,12 +341,12 @@ Proof.
       destruct (meth_result (next s0) s1 m) as [s2 x] eqn:E2.
       destruct (resolver_opt good_pcfg s2 (mres m) x) as [s3 e3] eqn:E3.
       intros H; injection H as <- <-.
-      assert (J0' : J s0 (log ++ [EDelivered p (mid m) (Val v)])).
-      { eapply frame_J; [apply frame_refl|apply nochained_one; discriminate|exact J0]. }
+      assert (J0' : J s0 (log ++ [dev p m (Val v)])).
+      { eapply frame_J; [apply frame_refl|apply nochained_one; intros a b; apply dev_not_chained|exact J0]. }
       pose proof (meth_send_good _ _ _ _ I0 E1) as G1. eapply J_meth_send in E1; [|exact I0|exact J0'].
       pose proof (meth_result_good _ _ _ _ _ (good_inv _ _ _ G1) E2) as G2. eapply J_meth_result in E2; [|exact E1].
       eapply J_resolver_opt in E3; [|eapply good_inv; exact G2|exact E2].
-      change (EDelivered p (mid m) (Val v) :: e1 ++ e3) with ([EDelivered p (mid m) (Val v)] ++ (e1 ++ e3)).
+      change (dev p m (Val v) :: e1 ++ e3) with ([dev p m (Val v)] ++ (e1 ++ e3)).
       rewrite !app_assoc. rewrite <- !app_assoc in E3. rewrite <- !app_assoc. exact E3.
     + destruct (resolver good_pcfg s0 (mres m) (RFail f)) as [s1 e1] eqn:E1.
       intros H; injection H as <- <-.
